@@ -112,7 +112,8 @@ JudgeLine(e, st) ==
             THEN IF obsAcc
                  THEN V("C08", "ill-formed line accepted (" \o ln.why \o ")")
                       \* a transmitted checksum value above 0xFF can equal no XOR of bytes: also a breach of the gate
-                      \cup (IF ln.why = "hexrange" THEN V("C02", "line accepted although the transmitted checksum value exceeds 0xFF") ELSE {})
+                      \cup (IF ln.why = "hexrange" THEN V("C02", "line accepted although the transmitted checksum value exceeds 0xFF")
+                           ELSE IF ln.why = "nohex" THEN V("C02", "line accepted although no hexadecimal value follows the '*'") ELSE {})
                  ELSE {}
             ELSE IF o.class = "reject_checksum"
             THEN IF e.r = "err_checksum"
@@ -173,6 +174,8 @@ JudgeLine(e, st) ==
             /\ e.r # "panic"
             /\ classViol = {}
         checked == obsAcc /\ classViol = {} /\ r0 \in {"complete", "incomplete"} /\ e.r = r0
+        wronglyRejected == o.class \in {"open", "continue", "deliver", "single"} /\ ~needDecode
+                           /\ e.r \in {"err_nmea", "err_checksum"}
     IN  IF unspec
         THEN \* never judged (DESIGN 5.3, 5.4) except for totality; the code's own reading is the reference
              [viol |-> (IF e.r = "panic" THEN V("C01", "panic: " \o e.pmsg) ELSE {}) \cup agreeViol,
@@ -181,11 +184,14 @@ JudgeLine(e, st) ==
               class |-> o.class, unspec |-> TRUE]
         ELSE [viol |-> classViol \cup agreeViol \cup (IF checked THEN fieldViol ELSE {}),
               devs |-> IF checked THEN fieldDevs ELSE {},
-              st |-> o.st,
+              \* a line the specification accepts but the code rejected with an error: by C17 a rejected
+              \* line leaves no trace, so tracking continues from the unchanged state (if it did leave one,
+              \* the next lines show it)
+              st |-> IF wronglyRejected THEN st ELSE o.st,
               \* a payload-level disagreement on an unfragmented sentence or a delivery says nothing
               \* about the reassembly state (it is the same either way): keep tracking
-              lost |-> ~kindOk /\ ~(o.class \in {"single", "deliver"} /\ needDecode
-                                     /\ e.r \in {"err_nmea", "complete"}),
+              lost |-> ~kindOk /\ ~wronglyRejected
+                       /\ ~(o.class \in {"single", "deliver"} /\ needDecode /\ e.r \in {"err_nmea", "complete"}),
               class |-> o.class, unspec |-> FALSE]
 
 --------------------------------------------------------------------------
@@ -204,6 +210,13 @@ TwinViol(e) ==
     ELSE IF e.twinmode = "msg"
          THEN IF e.r = e.twin.r /\ MsgOfEv(e) = MsgOfEv(e.twin) /\ DataOfEv(e) = DataOfEv(e.twin) THEN {}
               ELSE V(e.twinprop, "result / payload / decoded message differs from its twin (" \o e.twinwhy \o ")")
+    ELSE IF e.twinmode = "sent"
+         \* same line with decoding on / off: whenever both return a sentence, every field but the message agrees
+         THEN IF Has(e, "s") /\ Has(e.twin, "s")
+              THEN IF [e.s EXCEPT !.msg = << >>] = [e.twin.s EXCEPT !.msg = << >>] /\ e.r = e.twin.r THEN {}
+                   ELSE V(e.twinprop, "sentence fields differ (" \o e.twinwhy \o ")")
+              ELSE IF Has(e.twin, "s") /\ e.r = "err_checksum"
+                   THEN V(e.twinprop, "sentence-level outcome differs (" \o e.twinwhy \o ")") ELSE {}
     ELSE IF Proj(e) = Proj(e.twin) THEN {}
     ELSE V(e.twinprop, "observation differs from its twin (" \o e.twinwhy \o ")")
 
